@@ -21,8 +21,9 @@ from holopy.scattering import calc_holo, Sphere, Mie, MieLens
 from scipy.optimize import least_squares
 
 ID = "C13"
-LEAN_MODULES = ["HoloProps.C13"]
-MODEL_MODULES = ["HoloModel.Fitting", "HoloModel.Prior", "HoloModel.Posterior"]
+LEAN_MODULES = ["HoloProps.C13", "HoloProps.C14Gen"]
+MODEL_MODULES = ["HoloModel.Fitting", "HoloModel.Prior", "HoloModel.Posterior", "HoloModel.ExtArith", "HoloGen.PyPrior"]
+GEN_DEPS = ["PyPrior"]
 NOT_PROVED = [
     "the optimisers themselves (third_party/nmpfit.mpfit, scipy.optimize.least_squares) are not modelled: contract H1-H3 of structure Minimizer are hypotheses, sampled against the real optimisers by the search",
     "recovery of the generating parameters from a nearby start (convergence of Levenberg-Marquardt): search only",
